@@ -95,7 +95,12 @@ FNBodies(f, p) == {
   <<Put(N(5), "x"), Ret(Var("x"))>>,
   <<SayS("in"), Say(Pro)>>,                                  \* the callee sees the caller's pronoun referent
   <<Put(Var(p), "x"), SIf(0, Lit(Bool(TRUE)), <<Put(N(2), "x"), Put(N(3), "inner")>>, FALSE, <<>>), Ret(Var("x"))>>,
-  <<SWhile(0, Lit(Bool(TRUE)), <<SWhile(0, Lit(Bool(TRUE)), <<Ret(S("deep"))>>)>>), Ret(S("no"))>>
+  <<SWhile(0, Lit(Bool(TRUE)), <<SWhile(0, Lit(Bool(TRUE)), <<Ret(S("deep"))>>)>>), Ret(S("no"))>>,
+  \* writes through the pronoun reach the innermost variable of that name (the parameter, not a global it shadows)
+  <<Say(Var(p)), SInc(0, Pro, 1), Say(Var(p)), Ret(Var(p))>>,
+  <<Say(Var(p)), SAssign(0, Pro, "none", <<N(42)>>), Ret(Var(p))>>,
+  <<Say(Var(p)), SRock(0, Pro, <<N(8)>>), SAssign(0, Idx(Pro, S("key")), "none", <<N(1)>>), SRoll(0, Pro, Var("got")), Ret(Var(p))>>,
+  <<SIf(0, Lt(Var(p), N(2)), <<Put(PlusE(Var(p), N(1)), "t"), Say(Call(f, <<Var("t")>>))>>, FALSE, <<>>), Say(Var(p)), SInc(0, Pro, 10), Ret(Var(p))>>
 }
 FNMains(f) == {
   <<Put(N(1), "x"), Put(Call(f, <<Var("x")>>), "r"), Say(Var("r")), Say(Var("x"))>>,
@@ -181,7 +186,8 @@ ARPrograms(z) ==
 (* IO: say / listen interleavings x input texts x every writer budget x every failing read *)
 IOOps == { SayS("ab"), Say(N(1)), SListen(0, Var("x")), SListen(0, ENone), Say(Var("x")), Say(PlusE(Var("x"), S("!"))),
            SIf(0, Var("x"), <<SayS("t")>>, TRUE, <<SayS("f")>>), SListen(0, Idx(Var("x"), N(0))) }
-IOInputs == { <<>>, <<"l1\n">>, <<"l1">>, <<"\n", "z\n">>, <<"a\n", "b\n", "c">> }
+IOInputs == { <<>>, <<"l1\n">>, <<"l1">>, <<"\n", "z\n">>, <<"a\n", "b\n", "c">>,
+              <<"ke", "pt\n", "x">>, <<"a\nb\n", "c\n">> }             \* a line delivered in pieces; two lines delivered at once
 IOInputsU == { <<"~\n", "b~">> }
 IOProgs == Seqs1(IOOps) \cup Seqs2(IOOps, IOOps) \cup (IF Tier = "quick" THEN {} ELSE { <<a, b, c>> : a, b, c \in IOOps })
 -----------------------------------------------------------------------------
